@@ -60,12 +60,17 @@ def make_transition(rng, T, pairs, batch, time_dep, nonneg):
     """returns (names order, array, canonical array (T,B...,S,S), info)"""
     sizes = {}
     prevs, currs = [], []
+    # names are drawn so that the alphabetical order of the previous names need not agree with that of their partners
+    pool = [str(x) for x in rng.permutation(list("abcdefgh"))]
     for i, s in enumerate(pairs):
-        prevs.append("p%d" % i)
-        currs.append("c%d" % i)
-        sizes["p%d" % i] = s
-        sizes["c%d" % i] = s
-    bnames = ["b%d" % i for i in range(len(batch))]
+        pn, cn = pool[2 * i], pool[2 * i + 1]
+        if rng.random() < 0.3:
+            pn, cn = "p%d" % i, "c%d" % i
+        prevs.append(pn)
+        currs.append(cn)
+        sizes[pn] = s
+        sizes[cn] = s
+    bnames = ["z%d" % i for i in range(len(batch))]
     for n, s in zip(bnames, batch):
         sizes[n] = s
     sizes["time"] = T
@@ -272,7 +277,7 @@ def run_lagged_case(rng, res, riders):
     from funsor.terms import Number, Variable
     import funsor
 
-    T = int(rng.integers(1, 11))
+    T = int(rng.integers(1, 11)) if rng.random() < 0.75 else int(rng.integers(11, 15))
     nvars = int(rng.choice([1, 1, 2]))
     var_lags = {}
     for v in ["x", "y"][:nvars]:
